@@ -18,7 +18,8 @@ RULE = ("X-corr: (a) the Cython kernel correlation_openmp.correlation called dir
         "at once, and 1-dimensional input), allow_nan False/True: ValueError naming semantics/activations, or the "
         "pattern of non-finite cells (NaN exactly when all statistics are exact) with the finite cells as in (b). "
         "A case is non-trivial when it has at least one cell; distinct by content hash.")
-TRUSTED = ["numpy mean/std(ddof=1)/isnan and array construction with a requested memory layout",
+TRUSTED = ["harness/omplib.py: regular expressions over the C code Cython generated for this build (names __pyx_v_*/__pyx_t_*, brace matching, private/firstprivate/lastprivate/reduction clauses)",
+           "numpy mean/std(ddof=1)/isnan and array construction with a requested memory layout",
            "IEEE-754 binary64 arithmetic of the C compiler without value-changing optimisations "
            "(products/sums of the generated small dyadic numbers are exact, division is correctly rounded)",
            "libgomp scheduling of prange (every iteration exactly once)",
